@@ -51,6 +51,11 @@ PAIRED_STATE = [
     ("avro-vlq-state", "arrow_avro::reader::vlq::VLQDecoder::long", "in_progress", "shift"),
 ]
 
+STATE_CONSULTED = [
+    # (instance, fn, carried-state field, enum variant that completes a value): completing a value must read the carried state
+    ("avro-vlq-completion-reads-state", "arrow_avro::reader::vlq::VLQDecoder::long", "in_progress", "Some"),
+]
+
 PARTIAL = [
     # (instance, fn, fields a rejecting exit must depend on)
     ("csv-flush-rejects-partial-record", "arrow_csv::reader::records::RecordDecoder::flush", {"current_field"}),
@@ -75,6 +80,63 @@ def place_field(p):
 
 locals_reading_field = flow.locals_reading_field
 switches_depending_on_field = flow.switches_depending_on_field
+
+
+def run_resumable(ck, F):
+    ck.rule("C14.paired-state", "the fields of a resumable decoder's carried state are written together: a store to one is accompanied (same block, dominated by, or "
+            "inevitably followed by) a store to the other, so an early return for 'need more input' cannot persist half of the state", floor=len(PAIRED_STATE))
+    for iid, fid, fa, fb in PAIRED_STATE:
+        fn = F.resolve(fid)
+        if fn is None:
+            ck.missing_anchor(fid, "C14.paired-state")
+            continue
+        b = Body(fn)
+        sa = sorted(set(sb for sb, si, st in flow.field_stores(b, fa)))
+        sb_ = sorted(set(sb for sb, si, st in flow.field_stores(b, fb)))
+        rets = set(b.return_blocks())
+
+        def accompanied(x, others):
+            if x in others:
+                return True
+            if b.must_pass(others, x):          # an `others` store dominates x
+                return True
+            r = set()
+            for s_ in b.succ(x):
+                r |= b.reachable(s_, removed_blocks=others)
+            return not (r & rets)               # every path on to return passes an `others` store
+        bad = [(fa, b.loc(x)) for x in sa if not accompanied(x, sb_)] + [(fb, b.loc(x)) for x in sb_ if not accompanied(x, sa)]
+        if sa and sb_ and not bad:
+            ck.ok("C14.paired-state", iid, "%d stores of %s and %d of %s, always together" % (len(sa), fa, len(sb_), fb))
+        else:
+            ck.bad("C14.paired-state", iid, "%s stores %s without the matching store of the other state field (stores: %s=%d, %s=%d): when the input ends inside a "
+                   "value the decoder resumes from inconsistent state" % (fid, bad, fa, len(sa), fb, len(sb_)), bad[0][1] if bad else "%s:%s" % (fn["file"], fn["line"]))
+
+    ck.rule("C14.resume-state-consulted", "a resumable decoder completes a value only on paths that read its carried partial state (a fast path that decodes from the "
+            "current chunk alone drops the bytes consumed by earlier calls)", floor=len(STATE_CONSULTED))
+    for iid, fid, field, variant in STATE_CONSULTED:
+        fn = F.resolve(fid)
+        if fn is None:
+            ck.missing_anchor(fid, "C14.resume-state-consulted")
+            continue
+        b = Body(fn)
+        readers = set()
+        for bl in range(b.n):
+            for st in b.stmts(bl):
+                if st[0] == "a":
+                    from .mirlib import rvalue_operands
+                    for op in rvalue_operands(st[2]):
+                        pl = op_place(op)
+                        if pl is not None and any(isinstance(e, list) and e[0] == "f" and e[2] == field for e in pl[1]):
+                            readers.add(bl)
+        completes = [bl for bl in range(b.n) for st in b.stmts(bl)
+                     if st[0] == "a" and st[2][0] == "agg" and st[2][1][0] == "adt" and st[2][1][1] == "std::option::Option" and st[2][1][3] == variant]
+        bad = [b.loc(x) for x in completes if not b.must_pass(sorted(readers), x)]
+        if completes and readers and not bad:
+            ck.ok("C14.resume-state-consulted", iid, "%d completion site(s), all after a read of self.%s" % (len(completes), field))
+        else:
+            ck.bad("C14.resume-state-consulted", iid, "%s completes a value at %s without reading self.%s: bytes of the value consumed by an earlier call are ignored" % (fid, bad or "(no completion site found)", field),
+                   bad[0] if bad else "%s:%s" % (fn["file"], fn["line"]))
+
 
 
 def run(ck, tier):
@@ -166,33 +228,7 @@ def run(ck, tier):
             ck.bad("C14.flag-after-success", iid, "%s clears self.%s at %s without having passed %s: if the input chunk ends before the action completes it is never retried"
                    % (fid, field, bad or "(no store found)", need.pattern), bad[0] if bad else "%s:%s" % (fn["file"], fn["line"]))
 
-    ck.rule("C14.paired-state", "the fields of a resumable decoder's carried state are written together: a store to one is accompanied (same block, dominated by, or "
-            "inevitably followed by) a store to the other, so an early return for 'need more input' cannot persist half of the state", floor=len(PAIRED_STATE))
-    for iid, fid, fa, fb in PAIRED_STATE:
-        fn = F.resolve(fid)
-        if fn is None:
-            ck.missing_anchor(fid, "C14.paired-state")
-            continue
-        b = Body(fn)
-        sa = sorted(set(sb for sb, si, st in flow.field_stores(b, fa)))
-        sb_ = sorted(set(sb for sb, si, st in flow.field_stores(b, fb)))
-        rets = set(b.return_blocks())
-
-        def accompanied(x, others):
-            if x in others:
-                return True
-            if b.must_pass(others, x):          # an `others` store dominates x
-                return True
-            r = set()
-            for s_ in b.succ(x):
-                r |= b.reachable(s_, removed_blocks=others)
-            return not (r & rets)               # every path on to return passes an `others` store
-        bad = [(fa, b.loc(x)) for x in sa if not accompanied(x, sb_)] + [(fb, b.loc(x)) for x in sb_ if not accompanied(x, sa)]
-        if sa and sb_ and not bad:
-            ck.ok("C14.paired-state", iid, "%d stores of %s and %d of %s, always together" % (len(sa), fa, len(sb_), fb))
-        else:
-            ck.bad("C14.paired-state", iid, "%s stores %s without the matching store of the other state field (stores: %s=%d, %s=%d): when the input ends inside a "
-                   "value the decoder resumes from inconsistent state" % (fid, bad, fa, len(sa), fb, len(sb_)), bad[0][1] if bad else "%s:%s" % (fn["file"], fn["line"]))
+    run_resumable(ck, F)
 
     ck.rule("C14.partial-input-rejected", "finish/flush have a rejecting exit that depends on the partial-record state", floor=len(PARTIAL))
     for iid, fid, fields in PARTIAL:
